@@ -111,19 +111,19 @@ const (
 
 // Outcome is the result of one top-level node (or of a parse failure).
 type Outcome struct {
-	Kind    string
-	Val     string // Display() of the value (REPL flavour) or "" (script flavour)
-	Str     string // String() of the value (REPL flavour)
-	Err     string // error class / parse message / panic message
-	Out     string // stdout before any report
-	Report  string // runtime error report (pointers normalised)
-	Steps   int64  // instructions executed by this node
-	Before  State
-	After   State
-	Phase   string // for panics: parse | compile | run
-	Trace   uint64 // hash of the context-switch trace of this node
+	Kind     string
+	Val      string // Display() of the value (REPL flavour) or "" (script flavour)
+	Str      string // String() of the value (REPL flavour)
+	Err      string // error class / parse message / panic message
+	Out      string // stdout before any report
+	Report   string // runtime error report (pointers normalised)
+	Steps    int64  // instructions executed by this node
+	Before   State
+	After    State
+	Phase    string // for panics: parse | compile | run
+	Trace    uint64 // hash of the context-switch trace of this node
 	Switches int
-	FailIP  int // ip at which the VM reported the error (last hook ip), -1 if none
+	FailIP   int // ip at which the VM reported the error (last hook ip), -1 if none
 }
 
 // Same compares what a user can observe: kind, value, output, error class.
@@ -199,19 +199,19 @@ type Session struct {
 	AbortAt int   // abort at the k-th fallible instruction of the next node (1-based, 0 = off)
 
 	// observations (reset per node unless noted)
-	Steps      int64 // per node
-	TotalSteps int64 // per session
-	Fallible   int   // fallible instructions executed by the node
-	AbortFired bool
-	lastCtx    int
-	trace      uint64
-	switches   int
-	lastIP     int
-	MaxSP      map[int]int // per context id: maximum sp seen during the node
-	TrackSP    bool
-	Probes     map[string]int // per session, additive
-	seenCtx    map[int]bool
-	forked     bool
+	Steps        int64 // per node
+	TotalSteps   int64 // per session
+	Fallible     int   // fallible instructions executed by the node
+	AbortFired   bool
+	lastCtx      int
+	trace        uint64
+	switches     int
+	lastIP       int
+	MaxSP        map[int]int // per context id: maximum sp seen during the node
+	TrackSP      bool
+	Probes       map[string]int // per session, additive
+	seenCtx      map[int]bool
+	forked       bool
 	lastStackLen map[int]int
 
 	// OnStep, if set, is called for every instruction after the built-in bookkeeping.
